@@ -18,7 +18,14 @@
      raw_drop_parent_of      parent in the reduced tree = grand-parent at the dropped position
      raw_drop_children       children in the reduced tree = grand-children at the dropped position
      raw_drop_ancestors      ancestors in the reduced tree = ancestors in t without level li
-     flatten_accepted / drop_cells_accepted / drop_leaf_level_accepted *)
+     flatten_accepted / drop_cells_accepted / drop_leaf_level_accepted
+     ancestor_at_self / _step / _chain / _in   the ancestor of a node at a given level (Model: ancestor_at)
+     raw_drop_ancestor_at    ancestor_at in the reduced tree = ancestor_at in t at the lifted positions
+     leaves_of_ancestor      In l (leaves_of t k x) <-> ancestor_at t (length t - 1) l k = Some x
+     drop_levels_preserve    any sequence of drops (drops_ok / up_levels): closure, leaf level, nodes, ancestors
+     from_labels_exact       get_taxonomy_tree: verdict and content in one statement
+   In Proofs/TreeBackfillP.v: backfill_spec, backfill_fills, backfill_reduced (backfill_assignments),
+     drop_levels_leaves / drop_level_leaves (leaf lists of a reduced tree). *)
 From Coq Require Import ZArith List Bool Lia Permutation.
 From CTM Require Import Base.Sx Base.ListX Base.SortX Model.Tree.
 From CTM Require Export Proofs.TreeValidateP Proofs.TreeLeavesP Proofs.TreeDropP Proofs.TreeLabelsP.
@@ -199,10 +206,10 @@ Qed.
 
 Lemma leaf_pairs_refuted : exists t p,
   validate t = true /\ Forall (fun lv => NoDup (nodes lv)) t /\
-  In (1, 1) (leaf_pairs t p) /\ ~ NoDup (leaf_pairs t p).
+  (exists a, In (a, a) (leaf_pairs t p)) /\ ~ NoDup (leaf_pairs t p).
 Proof.
   exists f3_tree, (Some (0%nat, 0)). split; [vm_compute; reflexivity|]. split; [apply wf_small; reflexivity|].
-  split; [vm_compute; tauto|]. vm_compute. intros H. rewrite !NoDup_cons_iff in H.
+  split; [exists 1; vm_compute; tauto|]. vm_compute. intros H. rewrite !NoDup_cons_iff in H.
   destruct H as (_ & Hn & _). apply Hn. left. reflexivity.
 Qed.
 
@@ -292,7 +299,7 @@ Theorem parent_child_inverse t : validate t = true -> wf t ->
 Proof.
   intros V W. split; [|split].
   - intros k p c Hk. split; [apply children_parent_of; assumption|].
-    intros H. apply (parent_of_children t V k p c W H).
+    intros H. apply (parent_of_children t k p c W H).
   - intros k c Hk Hc. destruct (node_has_parent t V k c Hk Hc) as (p & E & Hp & _). exists p. tauto.
   - intros li x Hli Hx. split; [apply ancestors_path; assumption|]. split; [intros l; apply path_unique; assumption|].
     split; [apply ancestors_levels; assumption | apply ancestors_chk_ok; assumption].
@@ -318,59 +325,6 @@ Proof.
   split; [intros k; apply as_leaves_nth|].
   intros N. split; [intros k x; apply leaves_of_nodup; assumption|].
   split; [intros k x Hk; apply (leaves_partition t V N k x Hk) | intros k Hk; apply level_partition; assumption].
-Qed.
-
-Theorem drop_preserves t li : validate t = true -> wf t -> (S li < length t)%nat ->
-  exists t', drop_level t li = TOk t' /\
-    validate t' = true /\ wf t' /\ length t' = (length t - 1)%nat /\
-    leaf_level t' = leaf_level t /\
-    (forall k, nodes (nth k t' []) = nodes (nth (up_level li k) t [])) /\
-    (forall j x, ancestors t' j x = squash li (ancestors t (up_level li j) x)) /\
-    (inner_nodup t -> inner_nodup t').
-Proof.
-  intros V W H. exists (raw_drop t li). split; [apply drop_level_accepted; assumption|].
-  destruct (raw_drop_validate t li V W H) as [V' LL].
-  split; [exact V'|]. split; [apply raw_drop_wf; exact W|]. split; [apply raw_drop_length; lia|].
-  split; [exact LL|]. split; [|split].
-  - intros k. rewrite raw_drop_nth by lia. unfold up_level.
-    destruct (S k =? li)%nat eqn:E; [|destruct (k <? li)%nat; reflexivity].
-    apply Nat.eqb_eq in E. subst li. rewrite merge_nodes.
-    replace (k <? S k)%nat with true by (symmetry; apply Nat.ltb_lt; lia). reflexivity.
-  - intros j x. apply raw_drop_ancestors; assumption.
-  - apply raw_drop_inner_nodup; assumption.
-Qed.
-
-Theorem drop_leaf_preserves t : validate t = true -> wf t -> (2 <= length t)%nat ->
-  child_lists_nodup (nth (length t - 2) t []) ->
-  exists t', drop_leaf_level t = TOk t' /\
-    validate t' = true /\ wf t' /\ length t' = (length t - 1)%nat /\
-    (forall k, (k < length t - 1)%nat -> nodes (nth k t' []) = nodes (nth k t [])) /\
-    (forall j x, (j < length t - 1)%nat -> ancestors t' j x = ancestors t j x) /\
-    (forall x, children_of (leaf_level t') x =
-               flat_map (children_of (leaf_level t)) (children_of (nth (length t - 2) t []) x)).
-Proof.
-  intros V W H N. exists (raw_drop t (length t - 1)).
-  split; [apply drop_leaf_level_accepted; assumption|].
-  split; [apply raw_drop_leaf_validate; assumption|]. split; [apply raw_drop_wf; exact W|].
-  split; [apply raw_drop_length; lia|]. split; [|split].
-  - intros k Hk. rewrite raw_drop_nth by lia.
-    destruct (S k =? length t - 1)%nat eqn:E; [apply merge_nodes|].
-    replace (k <? length t - 1)%nat with true by (symmetry; apply Nat.ltb_lt; lia). reflexivity.
-  - intros j x Hj. apply ancestors_firstn. intros k Hk. rewrite raw_drop_nth by lia.
-    replace (S k =? length t - 1)%nat with false by (symmetry; apply Nat.eqb_neq; lia).
-    replace (k <? length t - 1)%nat with true by (symmetry; apply Nat.ltb_lt; lia). reflexivity.
-  - intros x. unfold leaf_level. rewrite !last_is_nth. rewrite raw_drop_length by lia.
-    rewrite raw_drop_nth by lia.
-    replace (S (length t - 1 - 1) =? length t - 1)%nat with true by (symmetry; apply Nat.eqb_eq; lia).
-    rewrite merge_children_of. replace (length t - 1 - 1)%nat with (length t - 2)%nat by lia. reflexivity.
-Qed.
-
-Theorem flatten_preserves t : validate t = true -> wf t ->
-  exists t', flatten t = TOk t' /\ validate t' = true /\ wf t' /\ length t' = 1%nat /\ leaf_level t' = leaf_level t.
-Proof.
-  intros V W. destruct (flatten_accepted t V) as (E & V' & LL). exists [leaf_level t].
-  split; [exact E|]. split; [exact V'|]. split; [|split; [reflexivity | exact LL]].
-  constructor; [|constructor]. unfold leaf_level. rewrite last_is_nth. apply wf_nth. exact W.
 Qed.
 
 (* is_equal_to ignores the cells *)
@@ -403,4 +357,260 @@ Theorem roundtrip_preserves t : validate t = true -> wf t ->
 Proof.
   intros V W. destruct (drop_cells_accepted t V W) as (A1 & A2 & A3 & A4 & A5 & A6 & A7).
   repeat (split; [assumption|]). split; [apply is_equal_to_drop_cells | apply is_equal_to_refl].
+Qed.
+
+(* ------------------------------------------------------------------ get_taxonomy_tree in one statement *)
+Theorem from_labels_exact n records : (1 <= n)%nat -> Forall (fun r => length r = n) records ->
+  (get_taxonomy_tree n records = TErr E_INVALID <-> two_parents n records) /\
+  (~ two_parents n records ->
+   exists t, get_taxonomy_tree n records = TOk t /\ validate t = true /\
+     length t = n /\ wf t /\ inner_nodup t /\
+     (forall k p c, (S k < n)%nat ->
+        (lists (nth k t []) p c <->
+         exists r, In r records /\ nth_error r k = Some p /\ nth_error r (S k) = Some c)) /\
+     (forall k x, (k < n)%nat ->
+        (In x (nodes (nth k t [])) <-> exists r, In r records /\ nth_error r k = Some x)) /\
+     (forall l i, lists (leaf_level t) l i <->
+        exists j r, nth_error records j = Some r /\ nth_error r (n - 1) = Some l /\ i = Z.of_nat j)).
+Proof.
+  intros Hn F. destruct (from_labels_verdict n Hn records F) as [[E N]|[E T]].
+  - split; [rewrite E; split; [discriminate | intros H; contradiction]|].
+    intros _. exists (raw_tree n records).
+    destruct (raw_tree_spec n Hn records F) as (L & W & I & Ed & Nd & Rw & _).
+    split; [exact E|]. split.
+    { unfold get_taxonomy_tree, mk_tree in E. fold (raw_tree n records) in E.
+      destruct (validate (raw_tree n records)); [reflexivity | discriminate]. }
+    repeat (split; [assumption|]). exact Rw.
+  - split; [tauto|]. intros H; contradiction.
+Qed.
+
+(* ------------------------------------------------------------------ the ancestor at a level *)
+Lemma ancestor_at_self (t : tree) li x : ancestor_at t li x li = Some x.
+Proof. unfold ancestor_at. rewrite Nat.eqb_refl. reflexivity. Qed.
+
+Lemma ancestor_at_step (t : tree) m y p k : parent_of (nth m t []) y = Some p -> (k <= m)%nat ->
+  ancestor_at t (S m) y k = ancestor_at t m p k.
+Proof.
+  intros E Hk. unfold ancestor_at. replace (k =? S m)%nat with false by (symmetry; apply Nat.eqb_neq; lia).
+  cbn [ancestors]. rewrite E. cbn [find fst]. destruct (m =? k)%nat eqn:E1.
+  - apply Nat.eqb_eq in E1. subst k. rewrite Nat.eqb_refl. reflexivity.
+  - replace (k =? m)%nat with false; [reflexivity|]. symmetry. apply Nat.eqb_neq. apply Nat.eqb_neq in E1. lia.
+Qed.
+
+Lemma ancestor_at_none (t : tree) m y k : parent_of (nth m t []) y = None -> (k <= m)%nat -> ancestor_at t (S m) y k = None.
+Proof.
+  intros E Hk. unfold ancestor_at. replace (k =? S m)%nat with false by (symmetry; apply Nat.eqb_neq; lia).
+  cbn [ancestors]. rewrite E. reflexivity.
+Qed.
+
+(* the ancestor at level k is the recorded parent of the ancestor at level k+1 *)
+Lemma ancestor_at_chain (t : tree) li y k : (k < li)%nat ->
+  ancestor_at t li y k = match ancestor_at t li y (S k) with Some c => parent_of (nth k t []) c | None => None end.
+Proof.
+  revert y. induction li as [|m IH]; intros y Hk; [lia|].
+  destruct (parent_of (nth m t []) y) as [p|] eqn:E.
+  - rewrite (ancestor_at_step t m y p k E) by lia.
+    destruct (Nat.eq_dec k m) as [->|Hne].
+    + rewrite !ancestor_at_self. symmetry. exact E.
+    + rewrite (ancestor_at_step t m y p (S k) E) by lia. apply IH. lia.
+  - rewrite (ancestor_at_none t m y k E) by lia.
+    destruct (Nat.eq_dec k m) as [->|Hne].
+    + rewrite ancestor_at_self. symmetry. exact E.
+    + rewrite (ancestor_at_none t m y (S k) E) by lia. reflexivity.
+Qed.
+
+Lemma ancestor_at_in (t : tree) li x k a : (k < li)%nat ->
+  (ancestor_at t li x k = Some a <-> In (k, a) (ancestors t li x)).
+Proof.
+  intros Hk. unfold ancestor_at. replace (k =? li)%nat with false by (symmetry; apply Nat.eqb_neq; lia).
+  clear Hk. revert x. induction li as [|m IH]; intros x; cbn [ancestors].
+  - cbn. split; [discriminate | intros []].
+  - destruct (parent_of (nth m t []) x) as [p|]; [|cbn; split; [discriminate | intros []]].
+    cbn [find fst In]. destruct (m =? k)%nat eqn:E.
+    + apply Nat.eqb_eq in E. subst m. cbn [option_map snd]. split.
+      * intros H. inversion H; subst. left. reflexivity.
+      * intros [H|H]; [inversion H; reflexivity|].
+        exfalso. assert (G : forall j y, In (k, a) (ancestors t j y) -> (k < j)%nat).
+        { clear. induction j as [|j IHj]; intros y; cbn [ancestors]; [intros []|].
+          destruct (parent_of (nth j t []) y) as [q|]; [|intros []].
+          intros [H|H]; [inversion H; lia | apply IHj in H; lia]. }
+        apply G in H. lia.
+    + rewrite IH. apply Nat.eqb_neq in E. split; [intros H; right; exact H|].
+      intros [H|H]; [inversion H; congruence | exact H].
+Qed.
+
+(* squash commutes with looking a level up *)
+Lemma find_squash li k (l : list (nat * node)) :
+  option_map snd (find (fun a => (fst a =? k)%nat) (squash li l)) =
+  option_map snd (find (fun a => (fst a =? up_level li k)%nat) l).
+Proof.
+  unfold squash, up_level, down_level. induction l as [|[j p] l IH]; [reflexivity|].
+  cbn [filter fst]. destruct (j =? li)%nat eqn:E1; cbn [negb].
+  - apply Nat.eqb_eq in E1. subst j. rewrite IH. cbn [find fst].
+    replace (li =? (if (k <? li)%nat then k else S k))%nat with false; [reflexivity|].
+    symmetry. apply Nat.eqb_neq. destruct (k <? li)%nat eqn:E2; [apply Nat.ltb_lt in E2 | apply Nat.ltb_ge in E2]; lia.
+  - cbn [map find fst snd]. apply Nat.eqb_neq in E1.
+    destruct (j <? li)%nat eqn:E2; [apply Nat.ltb_lt in E2 | apply Nat.ltb_ge in E2];
+      (destruct (k <? li)%nat eqn:E3; [apply Nat.ltb_lt in E3 | apply Nat.ltb_ge in E3]).
+    + destruct (j =? k)%nat; [reflexivity | exact IH].
+    + replace (j =? k)%nat with false by (symmetry; apply Nat.eqb_neq; lia).
+      replace (j =? S k)%nat with false by (symmetry; apply Nat.eqb_neq; lia). exact IH.
+    + replace (Nat.pred j =? k)%nat with false by (symmetry; apply Nat.eqb_neq; lia).
+      replace (j =? k)%nat with false by (symmetry; apply Nat.eqb_neq; lia). exact IH.
+    + destruct (j =? S k)%nat eqn:E4.
+      * apply Nat.eqb_eq in E4. subst j. cbn [Nat.pred]. rewrite Nat.eqb_refl. reflexivity.
+      * apply Nat.eqb_neq in E4. replace (Nat.pred j =? k)%nat with false by (symmetry; apply Nat.eqb_neq; lia). exact IH.
+Qed.
+
+Lemma up_level_inj li a b : up_level li a = up_level li b -> a = b.
+Proof.
+  unfold up_level. destruct (a <? li)%nat eqn:E1; [apply Nat.ltb_lt in E1 | apply Nat.ltb_ge in E1];
+    (destruct (b <? li)%nat eqn:E2; [apply Nat.ltb_lt in E2 | apply Nat.ltb_ge in E2]); lia.
+Qed.
+
+Lemma raw_drop_ancestor_at t li j x k : validate t = true -> wf t -> (S li < length t)%nat ->
+  ancestor_at (raw_drop t li) j x k = ancestor_at t (up_level li j) x (up_level li k).
+Proof.
+  intros V W H. unfold ancestor_at. rewrite (raw_drop_ancestors t li j x V W H), find_squash.
+  destruct (k =? j)%nat eqn:E.
+  - apply Nat.eqb_eq in E. subst k. rewrite Nat.eqb_refl. reflexivity.
+  - replace (up_level li k =? up_level li j)%nat with false; [reflexivity|].
+    symmetry. apply Nat.eqb_neq. intros E'. apply up_level_inj in E'. apply Nat.eqb_neq in E. contradiction.
+Qed.
+
+(* ------------------------------------------------------------------ transformations, combined *)
+Theorem drop_preserves t li : validate t = true -> wf t -> (S li < length t)%nat ->
+  exists t', drop_level t li = TOk t' /\
+    validate t' = true /\ wf t' /\ length t' = (length t - 1)%nat /\
+    leaf_level t' = leaf_level t /\
+    (forall k, nodes (nth k t' []) = nodes (nth (up_level li k) t [])) /\
+    (forall j x, ancestors t' j x = squash li (ancestors t (up_level li j) x)) /\
+    (forall j x k, ancestor_at t' j x k = ancestor_at t (up_level li j) x (up_level li k)) /\
+    (inner_nodup t -> inner_nodup t').
+Proof.
+  intros V W H. exists (raw_drop t li). split; [apply drop_level_accepted; assumption|].
+  destruct (raw_drop_validate t li V W H) as [V' LL].
+  split; [exact V'|]. split; [apply raw_drop_wf; exact W|]. split; [apply raw_drop_length; lia|].
+  split; [exact LL|]. split; [|split; [|split]].
+  - intros k. rewrite raw_drop_nth by lia. unfold up_level.
+    destruct (S k =? li)%nat eqn:E; [|destruct (k <? li)%nat; reflexivity].
+    apply Nat.eqb_eq in E. subst li. rewrite merge_nodes.
+    replace (k <? S k)%nat with true by (symmetry; apply Nat.ltb_lt; lia). reflexivity.
+  - intros j x. apply raw_drop_ancestors; assumption.
+  - intros j x k. apply raw_drop_ancestor_at; assumption.
+  - apply raw_drop_inner_nodup; assumption.
+Qed.
+
+Theorem drop_leaf_preserves t : validate t = true -> wf t -> (2 <= length t)%nat ->
+  child_lists_nodup (nth (length t - 2) t []) ->
+  exists t', drop_leaf_level t = TOk t' /\
+    validate t' = true /\ wf t' /\ length t' = (length t - 1)%nat /\
+    (forall k, (k < length t - 1)%nat -> nodes (nth k t' []) = nodes (nth k t [])) /\
+    (forall j x, (j < length t - 1)%nat -> ancestors t' j x = ancestors t j x) /\
+    (forall x, children_of (leaf_level t') x =
+               flat_map (children_of (leaf_level t)) (children_of (nth (length t - 2) t []) x)).
+Proof.
+  intros V W H N. exists (raw_drop t (length t - 1)).
+  split; [apply drop_leaf_level_accepted; assumption|].
+  split; [apply raw_drop_leaf_validate; assumption|]. split; [apply raw_drop_wf; exact W|].
+  split; [apply raw_drop_length; lia|]. split; [|split].
+  - intros k Hk. rewrite raw_drop_nth by lia.
+    destruct (S k =? length t - 1)%nat eqn:E; [apply merge_nodes|].
+    replace (k <? length t - 1)%nat with true by (symmetry; apply Nat.ltb_lt; lia). reflexivity.
+  - intros j x Hj. apply ancestors_firstn. intros k Hk. rewrite raw_drop_nth by lia.
+    replace (S k =? length t - 1)%nat with false by (symmetry; apply Nat.eqb_neq; lia).
+    replace (k <? length t - 1)%nat with true by (symmetry; apply Nat.ltb_lt; lia). reflexivity.
+  - intros x. unfold leaf_level. rewrite !last_is_nth. rewrite raw_drop_length by lia.
+    rewrite raw_drop_nth by lia.
+    replace (S (length t - 1 - 1) =? length t - 1)%nat with true by (symmetry; apply Nat.eqb_eq; lia).
+    rewrite merge_children_of. replace (length t - 1 - 1)%nat with (length t - 2)%nat by lia. reflexivity.
+Qed.
+
+Theorem flatten_preserves t : validate t = true -> wf t ->
+  exists t', flatten t = TOk t' /\ validate t' = true /\ wf t' /\ t' = [leaf_level t] /\
+    leaf_level t' = leaf_level t /\
+    (forall x, ancestors t' 0 x = []) /\
+    (forall li, drop_level t' li = TErr E_FLAT) /\ flatten t' = TOk t' /\
+    (forall u, leaf_level u = leaf_level t -> flatten u = TOk t').
+Proof.
+  intros V W. destruct (flatten_accepted t V) as (E & V' & LL). exists [leaf_level t].
+  split; [exact E|]. split; [exact V'|]. split; [|split; [reflexivity|split; [exact LL|]]].
+  { constructor; [|constructor]. unfold leaf_level. rewrite last_is_nth. apply wf_nth. exact W. }
+  split; [reflexivity|]. split; [intros li; apply (proj1 (drop_level_errors [leaf_level t] li)); reflexivity|].
+  split; [unfold flatten; rewrite LL; exact E|].
+  intros u Hu. unfold flatten. rewrite Hu. exact E.
+Qed.
+
+(* ------------------------------------------------------------------ repeated drops *)
+Fixpoint drops_ok (n : nat) (lis : list nat) : Prop :=
+  match lis with
+  | [] => True
+  | li :: rest => (S li < n)%nat /\ drops_ok (n - 1) rest
+  end.
+(* position in the original tree of level j of the tree left after the drops *)
+Fixpoint up_levels (lis : list nat) (j : nat) : nat :=
+  match lis with
+  | [] => j
+  | li :: rest => up_level li (up_levels rest j)
+  end.
+
+Theorem drop_levels_preserve lis : forall t, validate t = true -> wf t -> drops_ok (length t) lis ->
+  exists t', drop_levels t lis = TOk t' /\ validate t' = true /\ wf t' /\
+    length t' = (length t - length lis)%nat /\
+    leaf_level t' = leaf_level t /\ flatten t' = flatten t /\
+    (forall k, nodes (nth k t' []) = nodes (nth (up_levels lis k) t [])) /\
+    (forall j x k, ancestor_at t' j x k = ancestor_at t (up_levels lis j) x (up_levels lis k)) /\
+    (inner_nodup t -> inner_nodup t').
+Proof.
+  induction lis as [|li rest IH]; intros t V W OK.
+  - exists t. cbn [drop_levels length up_levels]. rewrite Nat.sub_0_r. repeat (split; [reflexivity || assumption|]). tauto.
+  - destruct OK as [Hli OK]. destruct (drop_preserves t li V W Hli) as (t1 & E1 & V1 & W1 & L1 & LL1 & N1 & _ & A1 & I1).
+    rewrite <- L1 in OK. destruct (IH t1 V1 W1 OK) as (t' & E & V' & W' & L' & LL' & F' & N' & A' & I').
+    exists t'. cbn [drop_levels]. rewrite E1. split; [exact E|]. split; [exact V'|]. split; [exact W'|].
+    split; [cbn [length]; lia|]. split; [congruence|].
+    split; [rewrite F'; unfold flatten; rewrite LL1; reflexivity|].
+    split; [intros k; cbn [up_levels]; rewrite N', N1; reflexivity|].
+    split; [intros j x k; cbn [up_levels]; rewrite A', A1; reflexivity | tauto].
+Qed.
+
+
+(* ------------------------------------------------------------------ leaf lists = leaves by ancestor *)
+(* the leaf list of node x of level k holds exactly the leaves whose ancestor at level k is x *)
+Theorem leaves_of_ancestor t : validate t = true -> wf t ->
+  forall k x l, (k < length t)%nat ->
+    (In l (leaves_of t k x) <-> ancestor_at t (length t - 1) l k = Some x).
+Proof.
+  intros V W.
+  assert (G : forall d k x l, (k + d = length t - 1)%nat -> (k < length t)%nat ->
+            (In l (leaves_of t k x) <-> ancestor_at t (length t - 1) l k = Some x)).
+  { induction d as [|d IH]; intros k x l Hd Hk.
+    - replace k with (length t - 1)%nat by lia. rewrite (leaves_of_leaf t V), ancestor_at_self. cbn [In].
+      split; [intros [->|[]]; reflexivity | intros E; inversion E; left; reflexivity].
+    - assert (Hk' : (S k < length t)%nat) by lia.
+      rewrite (ancestor_at_chain t (length t - 1) l k) by lia. split.
+      + intros H. apply (Permutation_in _ (leaves_of_children t k x Hk')) in H.
+        apply in_flat_map in H. destruct H as (c & Hc & Hl).
+        apply (IH (S k) c l) in Hl; [|lia|lia]. rewrite Hl. apply (children_parent_of t V k x c Hk' Hc).
+      + intros H. destruct (ancestor_at t (length t - 1) l (S k)) as [c|] eqn:Ec; [|discriminate].
+        apply (Permutation_in _ (Permutation_sym (leaves_of_children t k x Hk'))).
+        apply in_flat_map. exists c. split; [apply (parent_of_children t k x c W H)|].
+        apply (IH (S k) c l); [lia | lia | exact Ec]. }
+  intros k x l Hk. apply (G (length t - 1 - k)%nat); lia.
+Qed.
+
+(* ------------------------------------------------------------------ deciding the side conditions on concrete trees *)
+Fixpoint inner_nodup_b (t : tree) : bool :=
+  match t with
+  | [] => true
+  | lv :: rest => match rest with
+                  | [] => true
+                  | _ :: _ => forallb (fun nc => znodup_b (snd nc)) lv && inner_nodup_b rest
+                  end
+  end.
+Lemma inner_nodup_small t : inner_nodup_b t = true -> inner_nodup t.
+Proof.
+  induction t as [|lv rest IH]; [intros _; exact Logic.I|]. cbn [inner_nodup_b inner_nodup].
+  destruct rest as [|lv2 rest]; [intros _; exact Logic.I|]. intros H. apply andb_true_iff in H. destruct H as [H1 H2].
+  split; [|apply IH; exact H2]. intros p cs Hin. apply znodup_b_spec.
+  apply (proj1 (forallb_forall _ _) H1 (p, cs) Hin).
 Qed.
